@@ -34,22 +34,59 @@ func c03DefaultFromDefault(c *Ctx, rule string, pk *packages.Package) {
 		if !hasDesc {
 			continue
 		}
-		k := 0
-		for _, b := range sf.Blocks {
-			for _, ins := range b.Instrs {
-				st, ok := ins.(*ssa.Store)
-				if !ok {
-					continue
+		// the compared member of each value the function returns: stored into a literal here, or handed to a small
+		// constructor of the package (`newFieldDefault(comparableValue, printableValue)`) that stores its parameter
+		comparableOf := func(fn *ssa.Function) map[ssa.Value][]ssa.Value { // struct alloc → values stored into .comparable
+			out := map[ssa.Value][]ssa.Value{}
+			for _, b := range fn.Blocks {
+				for _, ins := range b.Instrs {
+					st, ok := ins.(*ssa.Store)
+					if !ok {
+						continue
+					}
+					fa, ok := st.Addr.(*ssa.FieldAddr)
+					if !ok || !strings.HasSuffix(fieldName(fa.X.Type(), fa.Field), "fieldDefault.comparable") {
+						continue
+					}
+					out[fa.X] = append(out[fa.X], st.Val)
 				}
-				fa, ok := st.Addr.(*ssa.FieldAddr)
-				if !ok || !strings.HasSuffix(fieldName(fa.X.Type(), fa.Field), "fieldDefault.comparable") {
-					continue
-				}
-				n++
-				k++
-				fromDefault := dependsOnCall(st.Val, func(cc *ssa.CallCommon) bool { return cc.IsInvoke() && cc.Method.Name() == "Default" })
-				c.Ob(rule, fmt.Sprintf("%s/comparable#%d", ssaFuncName(sf), k), st.Pos(), fromDefault, true, "the compared value of this branch derives from descriptor.Default(): %v", fromDefault)
 			}
+			return out
+		}
+		var compared []ssa.Value
+		var at []token.Pos
+		for _, vals := range comparableOf(sf) {
+			for _, v := range vals {
+				compared = append(compared, v)
+				at = append(at, v.Pos())
+			}
+		}
+		for _, call := range callsIn(sf) {
+			callee := call.Call.StaticCallee()
+			if callee == nil || callee.Pkg != sf.Pkg || callee == sf || len(callee.Blocks) == 0 {
+				continue
+			}
+			cres := callee.Signature.Results()
+			if cres.Len() != 1 || !strings.HasSuffix(namedPath(cres.At(0).Type()), "bufcheckserverhandle.fieldDefault") {
+				continue
+			}
+			for _, vals := range comparableOf(callee) {
+				for _, v := range vals {
+					for i, prm := range callee.Params {
+						if dependsOnValue(v, prm) && i < len(call.Call.Args) {
+							compared = append(compared, call.Call.Args[i])
+							at = append(at, call.Pos())
+						}
+					}
+				}
+			}
+		}
+		k := 0
+		for i, v := range compared {
+			n++
+			k++
+			fromDefault := dependsOnCall(v, func(cc *ssa.CallCommon) bool { return cc.IsInvoke() && cc.Method.Name() == "Default" })
+			c.Ob(rule, fmt.Sprintf("%s/comparable#%d", ssaFuncName(sf), k), at[i], fromDefault, true, "the compared value of this branch derives from descriptor.Default(): %v", fromDefault)
 		}
 	}
 	if n == 0 {
